@@ -507,6 +507,20 @@ def _aw_state_out(res, ex):
     return [("env_state", "S", term_of(res.fields["env_state"]))]
 
 
+# ------------------------------------------------------------------------------------------------ C13: rescale_box (bounded component)
+def _rescale_bind():
+    return {"box": Obj({"low": R("lo"), "high": R("hi"), "shape": Static(())}, "Box"), "min": R("mn"), "max": R("mx")}
+
+
+def _rescale_out(res, ex):
+    if not (isinstance(res, tuple) and len(res) == 3 and isinstance(res[0], Obj) and isinstance(res[1], Closure) and isinstance(res[2], Closure)):
+        raise TranslateError("rescale_box no longer returns (box, forward, backward)")
+    fwd = ex.invoke(res[1], [R("x")], {}, res[1].node)
+    bwd = ex.invoke(res[2], [R("x")], {}, res[2].node)
+    return [("new_low", "Q", term_of(res[0].fields["low"], "R")), ("new_high", "Q", term_of(res[0].fields["high"], "R")),
+            ("forward", "Q", term_of(fwd, "R")), ("backward", "Q", term_of(bwd, "R"))]
+
+
 def pure_wrapper_kernels(prefix, file, cls, statecls, fname, fty, methods):
     """kernels for the methods of one of the `AbstractPure*Wrapper` classes: self.env is the record E, self.func the function `fname`"""
     files, clss = [file, "wrapper/base_wrapper.py"], [cls, "AbstractWrapper"]
@@ -584,6 +598,9 @@ KERNELS = {
                 lambda res, ex: [("value", "bool", term_of(res))]),
             *pure_wrapper_kernels("ow", "wrapper/transform_observation.py", "AbstractPureObservationWrapper", "PureObservationState", "g", "O -> O", _ALL_METHODS),
             *pure_wrapper_kernels("rw", "wrapper/transform_reward.py", "AbstractPureTransformRewardWrapper", "PureTransformRewardState", "h", "Q -> Q", _ALL_METHODS),
+            Kernel("rescale", "wrapper/utils.py", None, "rescale_box", _rescale_bind, "(lo hi mn mx x : Q)", _rescale_out, carrier="Q",
+                   prims={"Box": Prim(lambda ex, n, a, k: Obj(k, "Box") if not a and set(k) == {"low", "high", "shape"} else fail(n, "Box form")),
+                          "RescaleResult": Prim(lambda ex, n, a, k: tuple(a) if len(a) == 3 and not k else fail(n, "RescaleResult form"))}),
             _tl("tl_transition_info", "transition_info", lambda: {"self": _tl_self(), "state": _tl_state("c", "si"), "action": O("a"),
                                                                   "next_state": _tl_state("c2", "si2")},
                 " (c : Z) (si : S) (a : A) (c2 : Z) (si2 : S)", lambda res, ex: [("value", "Q", term_of(res))])],
